@@ -85,7 +85,45 @@ def run(seed, checks, tier='quick'):
     return 0
 
 
+def runw(seed, checks, tier='quick'):
+    """Like run, but in a scratch worktree handed to the checks through VERIF_REPO (so /repo is never touched and
+    several seeds can be run at once); evidence and replays go to a scratch directory."""
+    seed = os.path.abspath(seed)
+    wt = tempfile.mkdtemp(prefix='seedrun_', dir='/tmp')
+    os.rmdir(wt)
+    r = sh(['git', '-C', '/repo', 'worktree', 'add', '--detach', wt, 'HEAD', '-q'])
+    if r.returncode:
+        print('worktree add failed', r.stderr)
+        return 2
+    outdir = tempfile.mkdtemp(prefix='seedout_', dir='/dev/shm')
+    out = {}
+    try:
+        r = sh(['git', 'apply', os.path.join(seed, 'patch.diff')], cwd=wt)
+        if r.returncode:
+            print('patch does not apply:', r.stderr)
+            return 2
+        env = dict(os.environ, VERIF_REPO=wt, VERIF_OUT=outdir)
+        if os.environ.get('SEED_FAILFAST', '1') == '1':
+            env['VERIF_FAILFAST'] = '1'
+        for c in checks.split(','):
+            r = sh(['/verif/vcheck', c, tier], env=env, timeout=7200)
+            v = [l for l in r.stdout.splitlines() if l.startswith('VIOLATION')]
+            sigs = [l.strip() for l in r.stdout.splitlines() if l.strip().startswith('sig=') or l.startswith('FAILFAST')]
+            out[c] = {'rc': r.returncode, 'violations': len(v), 'sigs': sigs[:4]}
+            print(os.path.basename(seed), c, out[c], flush=True)
+            if r.returncode == 2:
+                print(r.stdout[-800:], r.stderr[-800:])
+    finally:
+        sh(['git', '-C', '/repo', 'worktree', 'remove', '--force', wt])
+        shutil.rmtree(outdir, ignore_errors=True)
+    caught = [c for c, o in out.items() if o['rc'] == 1 and o['violations']]
+    print(os.path.basename(seed), 'CAUGHT-BY', ','.join(caught) if caught else 'NONE')
+    return 0
+
+
 if __name__ == '__main__':
+    if sys.argv[1] == 'runw':
+        sys.exit(runw(*sys.argv[2:]))
     if sys.argv[1] == 'verify':
         sys.exit(verify(sys.argv[2]))
     sys.exit(run(*sys.argv[2:]))
